@@ -272,6 +272,10 @@ func (propC18) Gen(r *Rng, run uint64, tier string) *Plan {
 	if exhaustive {
 		p.Tags["exhaustive_orders"] = fmt.Sprint(n)
 	}
+	if !cli && !raceMode() && r.Bool(0.03) {
+		// hundreds or thousands of other queries ran in this process first
+		p.Tags["cache_pressure"] = fmt.Sprint([]int{140, 140, 300, 300, 1100, 4200}[r.Intn(6)])
+	}
 	if raceMode() && len(contA) > 0 && r.Bool(0.4) {
 		// Race phase only: let the failure and cleanup paths run concurrently
 		// with the other opens, so that the detector sees them too.
@@ -307,7 +311,38 @@ func (propC18) Expand(t *testing.T, p *Plan) []*Plan { return []*Plan{p} }
 
 // HistorySample picks the plans whose answer is also asked of a fresh process.
 func (propC18) HistorySample(p *Plan, i int64) bool {
-	return p.Harness == "engine" && !raceMode() && i%23 == 11
+	if p.Harness != "engine" || raceMode() {
+		return false
+	}
+	return i%23 == 11 || p.Tags["cache_pressure"] != ""
+}
+
+// c18Pressure evaluates n throw-away queries with pairwise distinct literals, regexes
+// and templates over an empty inventory: whatever the process caches by text is
+// driven past its capacity before the plan's own query runs.
+func c18Pressure(t *testing.T, p *Plan, n int, st *Stats) {
+	for i := 0; i < n; i++ {
+		k := fmt.Sprintf("%d_%d", p.Run%1000, i)
+		var q string
+		switch i % 5 {
+		case 0:
+			q = `{} | line_format "{{ regexReplaceAll \"y` + k + `\" __line__ \"N\" }}"`
+		case 1:
+			q = `{} |~ "x` + k + `"`
+		case 2:
+			q = `{container=~"z` + k + `.*"}`
+		case 3:
+			q = `{} | label_format q="{{ .container }}` + k + `"`
+		default:
+			q = `count_over_time({} |= "w` + k + `" [10s])`
+		}
+		ip := &Plan{Property: "C18", Harness: "engine", Query: q, Params: p.Params, Variants: []Variant{{FragMode: "whole"}}}
+		o := Exec(t, ip, 0, ExecOpts{})
+		if st != nil {
+			st.Execs++
+		}
+		_ = o
+	}
 }
 
 func (propC18) Check(t *testing.T, p *Plan, st *Stats) *Violation {
@@ -322,6 +357,14 @@ func (propC18) Check(t *testing.T, p *Plan, st *Stats) *Violation {
 	}
 	var first *Outcome
 	var firstRender string
+	if n := p.Tags["cache_pressure"]; n != "" {
+		var cnt int
+		fmt.Sscan(n, &cnt)
+		c18Pressure(t, p, cnt, st)
+		if st != nil {
+			st.Probe("evaluated_under_cache_pressure")
+		}
+	}
 	if p.Harness == "cli" && p.Tags["broken_pipe_first"] == "1" && len(p.Variants) > 0 {
 		// An earlier rendering in this process was cut short by a failing stdout:
 		// nothing of it may show in the renderings that follow.
